@@ -8,7 +8,7 @@
   of such events, one per datagram in the order the code sends them.
 -/
 import EcModel.Lemmas.WkcLemmas
-import EcModel.GroupState
+import EcModel.Lemmas.GroupLemmas
 
 namespace Ec.C11
 open Ec Ec.Wkc
